@@ -17,6 +17,7 @@ pub struct C03;
 const V: u8 = 41;
 const X: u8 = 42;
 const Y: u8 = 43;
+const Z: u8 = 44;
 
 #[derive(Clone, Debug, Default)]
 pub struct Obs {
@@ -29,7 +30,10 @@ pub struct Obs {
 enum Holder {
     X,
     Y,
+    /// replays X's certificate, signs with its own key
     Impostor,
+    /// presents [its own certificate, X's certificate], signs with its own key
+    ImpostorChain,
     Nobody,
 }
 
@@ -38,6 +42,7 @@ fn holder(s: &str) -> Holder {
         "x" => Holder::X,
         "y" => Holder::Y,
         "impostor" => Holder::Impostor,
+        "impostor_chain" => Holder::ImpostorChain,
         _ => Holder::Nobody,
     }
 }
@@ -53,9 +58,12 @@ async fn scenario(sim: Arc<Sim>, unit: Value) -> Obs {
     let x = sim.start(&NodeSpec::new(X)).unwrap();
     let y = sim.start(&NodeSpec::new(Y)).unwrap();
     let (xid, yid) = (x.peer_id(), y.peer_id());
-    let impostor = Adversary::new(&sim, Some(&Identity::replayed(X, NET_NAME, Y)));
-    {
-        let ep = impostor.endpoint.clone();
+    let impostor = Adversary::new(&sim, Some(&Identity::replayed(X, NET_NAME, Z)));
+    let chain_id = Identity { chain: vec![crate::adversary::anemo_cert(Z, NET_NAME), crate::adversary::anemo_cert(X, NET_NAME)], signer: Some(crate::adversary::signing_key(&crate::adversary::ed25519_pkcs8(Z))) };
+    let impostor_chain = Adversary::new(&sim, Some(&chain_id));
+    let zid = peer_id_of_key(Z);
+    sim.labels.lock().unwrap().insert(zid, "Z(impostor)".into());
+    for ep in [impostor.endpoint.clone(), impostor_chain.endpoint.clone()] {
         tokio::spawn(async move {
             while let Some(inc) = ep.accept().await {
                 tokio::spawn(async move {
@@ -73,6 +81,7 @@ async fn scenario(sim: Arc<Sim>, unit: Value) -> Obs {
             Holder::X => x.local_addr(),
             Holder::Y => y.local_addr(),
             Holder::Impostor => impostor.addr,
+            Holder::ImpostorChain => impostor_chain.addr,
             Holder::Nobody => hole.local_addr().unwrap(),
         }
     };
@@ -80,6 +89,8 @@ async fn scenario(sim: Arc<Sim>, unit: Value) -> Obs {
         match h {
             Holder::X => Some(xid),
             Holder::Y => Some(yid),
+            // its own certificate comes first and it holds that key: it is, provably, Z
+            Holder::ImpostorChain => Some(zid),
             _ => None,
         }
     };
@@ -87,16 +98,20 @@ async fn scenario(sim: Arc<Sim>, unit: Value) -> Obs {
     let (mut ex, _) = x.subscribe().unwrap();
     let (mut ey, _) = y.subscribe().unwrap();
     // dials: [holder, pinned, offset_ms]
-    let dials: Vec<(Holder, bool, u64)> = unit["dials"].as_array().unwrap().iter().map(|d| (holder(d[0].as_str().unwrap()), d[1].as_bool().unwrap(), d[2].as_u64().unwrap())).collect();
+    // dials: [holder of the address, expected identity ("x" | "y" | null), start offset in ms]
+    let dials: Vec<(Holder, Option<PeerId>, u64)> = unit["dials"].as_array().unwrap().iter().map(|d| (holder(d[0].as_str().unwrap()), match d[1].as_str() { Some("x") => Some(xid), Some("y") => Some(yid), _ => None }, d[2].as_u64().unwrap())).collect();
     sim.fabric.set_fate_window(0, unit["fate_budget"].as_u64().unwrap_or(0) as usize);
     let mut handles = vec![];
-    for (i, (h, pinned, off)) in dials.iter().cloned().enumerate() {
+    for (i, (h, expect, off)) in dials.iter().cloned().enumerate() {
         let (v2, addr, sim2) = (v.clone(), addr_of(h), sim.clone());
         handles.push(tokio::spawn(async move {
             tokio::time::sleep(ms(off)).await;
             // a subscription taken before the call, to check "connected at some instant before the call returns"
             let (mut sub, snap) = v2.subscribe().unwrap();
-            let r = if pinned { v2.connect_with_peer_id(addr, peer_id_of_key(X)).await } else { v2.connect(addr).await };
+            let r = match expect {
+                Some(e) => v2.connect_with_peer_id(addr, e).await,
+                None => v2.connect(addr).await,
+            };
             let listed_now = v2.peers();
             let queued: Vec<PeerEvent> = drain_events(&mut sub);
             (i, r.map_err(|e| e.to_string()), snap, listed_now, queued, sim2.now_us())
@@ -108,8 +123,8 @@ async fn scenario(sim: Arc<Sim>, unit: Value) -> Obs {
     }
     sim.fabric.set_fate_budget(0);
     for (i, r, snap, listed_now, queued, t) in &results {
-        let (h, pinned, _) = dials[*i];
-        let ctx = format!("[dial #{i}: address held by {h:?}, {}]", if pinned { "expecting X" } else { "no expectation" });
+        let (h, expect, _) = dials[*i];
+        let ctx = format!("[dial #{i}: address held by {h:?}, {}]", match expect { Some(e) => format!("expecting {}", sim.label(&e)), None => "no expectation".to_string() });
         o.log.push(format!("{ctx} -> {:?} at {t}us", r.as_ref().map(|p| sim.label(p))));
         match r {
             Ok(p) => {
@@ -117,8 +132,13 @@ async fn scenario(sim: Arc<Sim>, unit: Value) -> Obs {
                     Some(k) if k == *p => {}
                     other => viol!("wrong-identity-returned", "{ctx} returned {} but the party holding that address {}", sim.label(p), match other { Some(k) => format!("is {}", sim.label(&k)), None => "holds no identity's key it presented".to_string() }),
                 }
-                if pinned && *p != xid {
-                    viol!("pin-bypassed", "{ctx} succeeded with {}", sim.label(p));
+                if let Some(e) = expect {
+                    if *p != e {
+                        viol!("pin-bypassed", "{ctx} succeeded with {}", sim.label(p));
+                    }
+                    if key_holder(h) != Some(e) {
+                        viol!("pin-bypassed", "{ctx} succeeded although the party at that address does not hold that identity's key");
+                    }
                 }
                 let was_connected = snap.contains(p) || listed_now.contains(p) || queued.iter().any(|e| matches!(e, PeerEvent::NewPeer(q) if q == p));
                 if !was_connected {
@@ -127,7 +147,10 @@ async fn scenario(sim: Arc<Sim>, unit: Value) -> Obs {
             }
             Err(_) => {
                 // honest, reachable holder of the expected / any identity: must succeed
-                let should = matches!((h, pinned), (Holder::X, _) | (Holder::Y, false));
+                let should = match expect {
+                    Some(e) => key_holder(h) == Some(e) && h != Holder::ImpostorChain,
+                    None => matches!(h, Holder::X | Holder::Y),
+                };
                 let deviations = sim.chooser.lock().unwrap().choices().iter().filter(|c| **c != 0).count();
                 if should && deviations == 0 {
                     viol!("honest-dial-fails", "{ctx} failed although the right party answers at that address: {r:?}");
@@ -142,10 +165,10 @@ async fn scenario(sim: Arc<Sim>, unit: Value) -> Obs {
     let evs_y = drain_events(&mut ey);
     // which identities may V legitimately be connected to
     let mut allowed: Vec<PeerId> = vec![];
-    for (h, pinned, _) in &dials {
-        match (h, pinned) {
-            (Holder::X, _) => allowed.push(xid),
-            (Holder::Y, false) => allowed.push(yid),
+    for (h, expect, _) in &dials {
+        match (key_holder(*h), expect) {
+            (Some(k), None) => allowed.push(k),
+            (Some(k), Some(e)) if k == *e => allowed.push(k),
             _ => {}
         }
     }
@@ -192,7 +215,7 @@ impl Check for C03 {
         CheckMeta {
             property: "C03",
             level: "fault_enumeration",
-            rule: "caller V, honest X and Y, an impostor replaying X's certificate without X's key, and a dead address; every single dial (address holder x with/without expected identity X) and every pair of concurrent dials (all 8 x 8 combinations x start offsets {0, 3, 9, 100} ms, the last one sequential), each explored over datagram fates within the deviation bound across both handshakes; distinct = distinct (holder, outcome) tuples".into(),
+            rule: "caller V, honest X and Y, an impostor replaying X's certificate without X's key, an impostor presenting [own certificate, X's certificate], and a dead address; every single dial (address holder x expected identity in {X, Y, none}) and every pair of dials (all 15 x 15 combinations x start offsets {0, 3, 9, 100} ms, the last one sequential), each explored over datagram fates within the deviation bound across both handshakes; distinct = distinct (holder, outcome) tuples".into(),
             assumptions: vec!["three key pairs; the impostor completes whatever handshake the caller lets it complete and sends the acknowledgement".into()],
             exhaustive: true,
         }
@@ -200,16 +223,26 @@ impl Check for C03 {
 
     fn units(&self, tier: Tier) -> Vec<Value> {
         let mut u = vec![];
-        let kinds: Vec<(&str, bool)> = vec![("x", true), ("x", false), ("y", true), ("y", false), ("impostor", true), ("impostor", false), ("nobody", true), ("nobody", false)];
-        for (h, p) in &kinds {
-            u.push(json!({"dials":[[h, p, 0]],"bound":tier.pick(2, 3),"fate_budget":24}));
+        let holders = ["x", "y", "impostor", "impostor_chain", "nobody"];
+        let expects: [Option<&str>; 3] = [Some("x"), Some("y"), None];
+        let mut kinds: Vec<(&str, Option<&str>)> = vec![];
+        for h in holders {
+            for e in expects {
+                kinds.push((h, e));
+            }
         }
-        for (h1, p1) in &kinds {
-            for (h2, p2) in &kinds {
+        for (h, e) in &kinds {
+            u.push(json!({"dials":[[h, e, 0]],"bound":tier.pick(2, 3),"fate_budget":24}));
+        }
+        for (h1, e1) in &kinds {
+            for (h2, e2) in &kinds {
                 for off in [0u64, 3, 9, 100] {
-                    let interesting = *h1 != "nobody" && *h2 != "nobody";
+                    let interesting = *h1 != "nobody" && *h2 != "nobody" && h1 == h2;
                     let bound = if interesting && off == 3 { tier.pick(1, 2) } else { tier.pick(0, 1) };
-                    u.push(json!({"dials":[[h1, p1, 0],[h2, p2, off]],"bound":bound,"fate_budget":30}));
+                    if tier == Tier::Quick && off == 9 && h1 != h2 {
+                        continue;
+                    }
+                    u.push(json!({"dials":[[h1, e1, 0],[h2, e2, off]],"bound":bound,"fate_budget":30}));
                 }
             }
         }
@@ -235,7 +268,7 @@ impl Check for C03 {
     }
 
     fn finish(&self, _tier: Tier, total: &mut UnitResult) -> Map<String, Value> {
-        for need in ["X:ok", "Y:ok", "Y:err", "Impostor:err", "Nobody:err"] {
+        for need in ["X:ok", "Y:ok", "Y:err", "Impostor:err", "ImpostorChain:ok", "ImpostorChain:err", "Nobody:err"] {
             if !total.classes.keys().any(|k| k.contains(need)) {
                 total.machinery_errors.push(format!("vacuous: outcome `{need}` never observed"));
             }
